@@ -9,7 +9,7 @@ Property theorems about `Model/Fetch.lean` (`fetch env cfg L A = (outcome, post)
   `Ahead` of it — never behind, never diverged, never deleted.
 * `below_threshold_fails_unchanged`: if fewer delegates than the threshold in force can have valid signed
   refs at all (stored before the fetch, or validly offered by it), the fetch does not succeed and storage is
-  unchanged; `failed_or_panic_unchanged`: `Failed` always means unchanged.
+  unchanged; `failed_unchanged`: `Failed` always means unchanged.
 * `threshold_arith`: the threshold in force is the identity threshold, minus one iff the local node is a
   delegate; blocked delegates — and, on `pull`, the local node — are not among the delegates that count.
 -/
@@ -69,12 +69,12 @@ theorem below_threshold_fails_unchanged (env : Env) (cfg : Config) (L A : Refdb)
     have := length_le_of_subset_nodup hvnd hsub
     omega
 
-/-- `FetchResult::Failed` (and a panic) leave local storage unchanged. -/
-theorem failed_or_panic_unchanged (env : Env) (cfg : Config) (L A : Refdb)
-    (h : (fetch env cfg L A).1 = .failed ∨ (fetch env cfg L A).1 = .panic) : (fetch env cfg L A).2 = L := by
+/-- `FetchResult::Failed` leaves local storage unchanged. -/
+theorem failed_unchanged (env : Env) (cfg : Config) (L A : Refdb)
+    (h : (fetch env cfg L A).1 = .failed) : (fetch env cfg L A).2 = L := by
   rcases fetch_cases env cfg L A with ⟨h', _⟩ | ⟨_, _, _, _, _, _, _, _, _, _, hout⟩
   · exact h'
-  · rcases hout with ho | ho <;> rcases h with h | h <;> (rw [ho] at h; cases h)
+  · rcases hout with ho | ho <;> (rw [ho] at h; cases h)
 
 /-- **Threshold arithmetic**: the threshold in force is the identity threshold minus one iff the local node
 is a delegate of the anchoring document; the delegates that count are those of the document that are not
